@@ -247,10 +247,10 @@ def rebin(img, factor):
 
     if img.ndim == 3:
         rebinned_shape = (img.shape[0], img.shape[1]//factor, img.shape[2]//factor)
-        img_rebinned = np.zeros(rebinned_shape, dtype=img.dtype)
-        for i in range(img.shape[0]):
-            img_rebinned[i] = img[i].reshape(rebinned_shape[1], factor,
-                                             rebinned_shape[2], factor).sum(-1).sum(1)
+        # sum the blocks exactly like the 2-D case (sum promotes bool and small
+        # integer types, so block totals cannot wrap around in the input dtype)
+        img_rebinned = img.reshape(rebinned_shape[0], rebinned_shape[1], factor,
+                                   rebinned_shape[2], factor).sum(-1).sum(2)
     else:
         img_rebinned = img.reshape(img.shape[0]//factor, factor, img.shape[1]//factor,
                                    factor).sum(-1).sum(1)
